@@ -59,7 +59,7 @@ type Scenario struct {
 	Chdirs  []string  `json:"chdirs,omitempty"` // a further task that only changes the working directory
 	SchedSeed  uint64 `json:"sched_seed,omitempty"`
 	SchedShape string `json:"sched_shape,omitempty"`
-	Tape       []int  `json:"tape,omitempty"`
+	Tapes      [][]int `json:"tapes,omitempty"` // pinned schedule tapes, one per scheduler in creation order
 	HaveTape   bool   `json:"have_tape,omitempty"`
 }
 
